@@ -366,6 +366,7 @@ pub fn c01_fronts(_args: &[String]) {
     let hot = MemSource::new(true);
     hot.put("a", "x", b"v1");
     body!(AssetCache::with_source(hot), "AssetCache+reloader");
+    long_ids(&mut rep);
     rep.print();
 }
 
@@ -439,7 +440,97 @@ pub fn c02_types(args: &[String]) {
         }
     }
     let _ = std::panic::take_hook();
+    long_ids(&mut rep);
     rep.print();
+}
+
+/// The map laws for ids of every length class (short, around the sizes where a hash or a
+/// small-string representation could switch strategy, very long), on the three front-ends.
+pub fn long_ids(rep: &mut Report) {
+    let lens: Vec<usize> = (0..70).chain([100, 127, 128, 129, 130, 200, 255, 256, 257, 300, 511, 512, 513, 1023, 1024, 1025, 4096, 4097, 10_000]).collect();
+    for front in ["AssetCache", "LocalAssetCache", "AnyCache"] {
+        rep.cases += 1;
+        let src = MemSource::new(false);
+        src.st.lock().unwrap().trace_reads = false;
+        let mut bad: Vec<String> = Vec::new();
+        macro_rules! body {
+            ($c:ident, $removal:expr) => {{
+                for (k, len) in lens.iter().enumerate() {
+                    // one long component, and dotted components
+                    for shape in 0..2 {
+                        let id: String = if shape == 0 { "x".repeat(*len) } else { (0..*len).map(|i| if i % 9 == 8 { '.' } else { 'y' }).collect() };
+                        if shape == 1 && (id.ends_with('.') || *len < 9) {
+                            continue;
+                        }
+                        rep.checks += 1;
+                        src.put(&id, "x", format!("v{k}").as_bytes());
+                        let reads0 = src.st.lock().unwrap().nread;
+                        let h1 = match $c.load::<Leaf<0>>(&id) {
+                            Ok(h) => h as *const _ as usize,
+                            Err(e) => {
+                                bad.push(format!("len {len}: load failed: {e}"));
+                                continue;
+                            }
+                        };
+                        let present = $c.contains::<Leaf<0>>(&id);
+                        let cached = $c.get_cached::<Leaf<0>>(&id).map(|h| h as *const _ as usize);
+                        let h2 = $c.load::<Leaf<0>>(&id).map(|h| h as *const _ as usize).unwrap_or(0);
+                        let reads1 = src.st.lock().unwrap().nread;
+                        if !present || cached != Some(h1) || h2 != h1 {
+                            bad.push(format!("len {len}: after a load contains={present}, get_cached gives the handle={}, a second load gives the handle={}", cached == Some(h1), h2 == h1));
+                        }
+                        if reads1 - reads0 != 1 {
+                            bad.push(format!("len {len}: two loads read the source {} times", reads1 - reads0));
+                        }
+                        // a neighbour id is a different key
+                        if $c.contains::<Leaf<0>>(&format!("{id}z")) {
+                            bad.push(format!("len {len}: the id with one more character is reported present"));
+                        }
+                        if $removal {
+                            long_ids_removal!($c, id, k, len, bad);
+                        }
+                    }
+                }
+            }};
+        }
+        macro_rules! long_ids_removal {
+            ($c:ident, $id:ident, $k:ident, $len:ident, $bad:ident) => {{
+                if $k % 2 == 0 {
+                    let removed = $c.remove::<Leaf<0>>(&$id);
+                    if !removed || $c.contains::<Leaf<0>>(&$id) {
+                        $bad.push(format!("len {}: remove reported {removed}, still present={}", $len, $c.contains::<Leaf<0>>(&$id)));
+                    }
+                } else {
+                    let taken = $c.take::<Leaf<0>>(&$id).is_some();
+                    if !taken || $c.contains::<Leaf<0>>(&$id) {
+                        $bad.push(format!("len {}: take handed back a value={taken}, still present={}", $len, $c.contains::<Leaf<0>>(&$id)));
+                    }
+                }
+            }};
+        }
+        match front {
+            "AssetCache" => {
+                let mut cache = AssetCache::without_hot_reloading(src.clone());
+                body!(cache, true);
+            }
+            "LocalAssetCache" => {
+                let mut cache = LocalAssetCache::with_source(src.clone());
+                body!(cache, true);
+            }
+            _ => {
+                let cache = AssetCache::with_source(src.clone());
+                let any = cache.as_any_cache();
+                macro_rules! long_ids_removal {
+                    ($c:ident, $id:ident, $k:ident, $len:ident, $bad:ident) => {{}};
+                }
+                body!(any, false);
+            }
+        }
+        if !bad.is_empty() {
+            rep.mismatch(json!({"what":"the cache is not a faithful map for ids of every length","front":front,
+                "first_anomalies":bad.iter().take(4).collect::<Vec<_>>(),"anomalies":bad.len()}));
+        }
+    }
 }
 
 // ---------------------------------------------------------------------------
@@ -498,5 +589,98 @@ pub fn c03_fs(args: &[String]) {
             let _ = std::fs::remove_dir_all(&root);
         }
     }
+    rep.print();
+}
+
+// ---------------------------------------------------------------------------
+// C07: values of every size class are replaced whole
+// ---------------------------------------------------------------------------
+/// A value stored inline, `N` elements of `T`: sizes that are not a multiple of the word size and
+/// alignments below it exercise the tail of whatever copies the bytes of a reloaded value.
+#[derive(Clone, Copy)]
+pub struct Pod<T: Copy + 'static, const N: usize>(pub [T; N]);
+pub struct PodLoader;
+macro_rules! pod_asset {
+    ($t:ty) => {
+        impl<const N: usize> assets_manager::loader::Loader<Pod<$t, N>> for PodLoader {
+            fn load(content: std::borrow::Cow<[u8]>, _ext: &str) -> Result<Pod<$t, N>, BoxedError> {
+                let n = crate::assets::parse_leaf(&content).ok_or("bad")?;
+                // every element differs from its neighbours and from the same element of other versions
+                let mut a = [0 as $t; N];
+                for (i, x) in a.iter_mut().enumerate() {
+                    *x = ((n as u64).wrapping_mul(31).wrapping_add(i as u64 * 7)) as $t;
+                }
+                Ok(Pod(a))
+            }
+        }
+        impl<const N: usize> assets_manager::Asset for Pod<$t, N> {
+            const EXTENSION: &'static str = "x";
+            type Loader = PodLoader;
+        }
+    };
+}
+pod_asset!(u8);
+pod_asset!(u16);
+pod_asset!(u32);
+pod_asset!(u64);
+
+fn pod_case<T: Copy + PartialEq + std::fmt::Debug + Send + Sync + 'static, const N: usize>(rep: &mut Report, is_static: bool)
+where
+    Pod<T, N>: assets_manager::Asset,
+    PodLoader: assets_manager::loader::Loader<Pod<T, N>>,
+{
+    use assets_manager::loader::Loader;
+    rep.cases += 1;
+    let src = MemSource::new(true);
+    src.st.lock().unwrap().trace_reads = false;
+    src.put("a", "x", b"v1");
+    let cache: &'static AssetCache<MemSource> = Box::leak(Box::new(AssetCache::with_source(src.clone())));
+    let h = cache.load::<Pod<T, N>>("a").unwrap();
+    if is_static {
+        cache.enhance_hot_reloading();
+    }
+    for v in 2..6i64 {
+        let content = format!("v{v}");
+        src.put("a", "x", content.as_bytes());
+        src.send(&[OwnedDirEntry::File("a".into(), "x".into())]);
+        let want: Pod<T, N> = PodLoader::load(std::borrow::Cow::Borrowed(content.as_bytes()), "x").unwrap();
+        let t0 = std::time::Instant::now();
+        let mut got = h.copied();
+        while got.0[..] != want.0[..] && t0.elapsed() < std::time::Duration::from_secs(3) {
+            if !is_static {
+                cache.hot_reload();
+            }
+            std::thread::sleep(std::time::Duration::from_micros(200));
+            got = h.copied();
+            // a value that already left the old version must be the new one, whole
+            let old: Pod<T, N> = PodLoader::load(std::borrow::Cow::Owned(format!("v{}", v - 1).into_bytes()), "x").unwrap();
+            if got.0[..] != old.0[..] {
+                break;
+            }
+        }
+        rep.checks += 1;
+        if got.0[..] != want.0[..] {
+            let first_bad = (0..N).find(|i| got.0[*i] != want.0[*i]);
+            rep.mismatch(json!({"what":"after a reload the cached value is not the new value, whole",
+                "element_type":std::any::type_name::<T>(),"elements":N,"bytes":std::mem::size_of::<Pod<T, N>>(),"align":std::mem::align_of::<T>(),
+                "version":v,"first_wrong_element":first_bad,"mode":if is_static {"static"} else {"local"}}));
+            return;
+        }
+    }
+}
+
+/// `amv c07-pods`: reload inline values of 1 .. 4100 bytes and alignments 1, 2, 4, 8.
+pub fn c07_pods(_args: &[String]) {
+    let mut rep = Report::default();
+    macro_rules! sweep {
+        ($t:ty; $($n:literal),*) => { $( pod_case::<$t, $n>(&mut rep, false); )* };
+    }
+    sweep!(u8; 1, 2, 3, 4, 5, 7, 8, 9, 11, 12, 15, 16, 17, 23, 24, 25, 31, 32, 33, 63, 64, 65, 100, 127, 129, 255, 257, 1000, 4095, 4096, 4097, 4100);
+    sweep!(u16; 1, 2, 3, 4, 5, 7, 9, 15, 17, 33, 50, 2049);
+    sweep!(u32; 1, 2, 3, 5, 7, 9, 17, 33, 1025);
+    sweep!(u64; 1, 2, 3, 513);
+    pod_case::<u8, 13>(&mut rep, true);
+    pod_case::<u16, 5>(&mut rep, true);
+    pod_case::<u32, 3>(&mut rep, true);
     rep.print();
 }
